@@ -5,7 +5,8 @@ tags, patches; missing runs, suites added and removed over time, several invocat
 duplicate suites, invocations of different arches interleaved in time with per-step times hours after the start, exit
 codes incl. the timeout code, logs with FAILED / SKIPPED / EXPECTED_FAIL / UNEXPECTED_PASS markers and one log above
 8 KiB, up to 70 invocations, invalid inputs), robsd-regress-html is run on it and exit status, the BYTES of index.html
-and the output tree are read back.
+and the output tree are read back.  Stream `bnd` holds the boundary classes (sizes, counts, integers, shapes: see the
+comment above bnd_ninv); corpus/C14/b14_<class>.json lists the arguments that run on every check.
 
 Correspondence: the extracted model (run_html_exec + HtmlPage.page_bytes) must produce the same exit status, the same
 index.html byte for byte and the same tree.  Oracle: the extracted strict reader (HtmlParse.parse_index: every tag
@@ -112,6 +113,8 @@ def gen_log(rng, want=None, big=False):
     data = b'\n'.join(lines)
     if lines and rng.random() < 0.85:
         data += b'\n'
+    if rng.random() < 0.02:
+        data = data.replace(b'\n', b'\r\n')        # CRLF: a marker line no longer ends with ====
     return data
 
 
@@ -138,6 +141,8 @@ def gen_invocation(rng, name, time, suites, opts):
     used = set()
     for s in suites:
         ex = rng.choice([0, 0, 0, 0, 1, 1, 2, 124, 124, -1, 255, 125, 123])
+        if rng.random() < 0.03:      # 0 or the timeout code only in the low 32 bits; the ends of int and int64_t
+            ex = rng.choice([256, P31 - 1, P31, P32, P32 + 124, P32 + 1, P63 - 1, -P63])
         want = None
         k = rng.random()
         if k < 0.18:
@@ -165,6 +170,8 @@ def gen_invocation(rng, name, time, suites, opts):
             files.append([ln, log])
         used.add(ln)
     dur = opts.get('duration', rng.choice([0, 59, 60, 600, 601, 1800, 3599, 3600, 3660, 7200, 86400, 100000]))
+    if 'duration' not in opts and rng.random() < 0.03:
+        dur = rng.choice([1, 86399, P31 - 1, P31, P32 - 1, P32, P32 + 601, 3600 * P31, 3600 * P32, P63 - 1])
     rows.append({'name': b'end', 'time': time + max(5000, gap * (len(rows) + 1)), 'duration': dur})
     if not suites and len(rows) == 1:
         rows[0]['time'] = time
@@ -224,9 +231,11 @@ def break_invocation(rng, ent):
 
 
 def gen_case(rng, stream, force=None):
-    """stream: plain | tie | dup | error | wide | special | many | overlap | markup | biglog;
+    """stream: plain | tie | dup | error | wide | special | many | overlap | markup | biglog | bnd (a boundary class);
     force: {'ninv': n} pins the number of invocations of the first arch"""
     force = force or {}
+    if stream == 'bnd':
+        return gen_bnd(rng, bool(force.get('thorough')))
     narch = rng.choice([1, 1, 2, 2, 3])
     if stream == 'overlap':
         narch = rng.choice([2, 2, 3, 4])
@@ -317,6 +326,535 @@ def gen_case(rng, stream, force=None):
         rng.shuffle(ents)
         out.append({'arch': arch.hex(), 'entries': ents})
     return {'stream': stream, 'arches': out}
+
+
+# ---- boundary classes: sizes, counts, integers and shapes a fixed buffer, a narrowed integer, a power-of-two growth
+# step or an off-by-one would trip over (stream `bnd`).  Every class is a DETERMINISTIC builder bnd_<cls>(arg, rng):
+# corpus/C14/b14_<cls>.json lists the arguments that always run ({"bnd": cls, "args": [...]}), the generator draws an
+# argument from BND_ARGS with ctx.rng and lets the builder jitter secondary parameters with it.  evaluate() prints
+# `class: <cls>:<arg>` into the input distribution.
+#
+# Which field flows where (read from /repo): suite NAME: step.csv lexer buffer (512, grows) -> arena_strndup -> MAP key
+# (find_suite) -> strcmp in suite_cmp -> arena_sprintf in cvsweb_url -> buffer_printf into the page (html buffer 1 << 10,
+# doubles); LOG name: arena_sprintf "%s/%s/%s" twice, access(2), open(O_EXCL) below the output directory (one path
+# component: NAME_MAX 255 caps it); ARCH: argv, arena_strndup, mkdir (one component: 255); DATE = directory name:
+# invocation_entry.basename[NAME_MAX + 1] / path[PATH_MAX] by snprintf (255 is the exact fit), strcmp for the walk order;
+# TIMES / DURATIONS / EXIT codes: strtonum(LLONG_MIN, LLONG_MAX) -> int64_t, compared with < and > (never subtracted)
+# except duration_delta (a - b: only non-negative durations are generated, the difference of a negative and a huge one is
+# signed overflow in C and a plain integer in the model) and render_duration ((int) of hours and minutes); COUNTS: VECTORs
+# of 16 doubling (r->invocations, suite->runs, steps, is->directories for invocations and for src.diff.*, the three
+# vectors of sort_suites), the MAP of suites; LOGS: buffer_read (1 << 13, doubles), parse_run_log's buffer (1 << 13),
+# regress_log_parse's scratch (1 << 20: NOT reached - a block above 1 MiB costs the extracted model minutes (its scratch
+# append is quadratic) and overflows its stack; the largest block generated here is 64 KiB + 1), "%.*s" in
+# regress_log_trim (cut at NUL); dmesg / comment / tags: arena_buffer_read, strstr on the NUL-terminated tags.
+#
+# CAPS (measured with the extracted model, see the report of the boundary pass): suite names up to 65536 bytes, logs up
+# to 64 KiB + 1, 65 x 65 runs in one page, 256 suites in one invocation, 1000 suites for the pass rate; n/65536 pass
+# rates only in the leaf harness (65536 suites cost the list model ~2^32 comparisons); arch / date / log names stop at
+# NAME_MAX (the kernel refuses longer components, a row naming a 256-byte log is the missing-log error).
+
+PASSLOG = b'==== t1 ====\nok\n'
+FAILLOG = b'==== t1 ====\nFAILED\n'
+P31, P32, P63 = 1 << 31, 1 << 32, 1 << 63
+COUNTS = [0, 1, 15, 16, 17, 31, 32, 33, 63, 64, 65]
+BLOCKS = [4095, 4096, 4097, 8191, 8192, 8193]
+
+
+def b_date(i, num=1):
+    """the i-th day from 2022-01-01 in robsd's directory spelling (months of 28 days keep it simple)"""
+    return b'%04d-%02d-%02d.%d' % (2022 + i // 336, 1 + (i // 28) % 12, 1 + i % 28, num)
+
+
+def b_inv(date, time, suites, duration=600, pre=1, gap=1, files=None, step=None, patches=0, post=0):
+    """an entry of the case format.  suites: dicts name / exit / log (content, None: no such file) / logname;
+    pre / post: non-suite rows before the suites / after them (before end); gap: seconds between rows (0 for start times
+    near the ends of int64_t); files: dmesg / comment / tags content (None: absent); step: the bytes of step.csv as given"""
+    rows, fs, seen = [], [], set()
+    for k in range(pre):
+        nm = NONSUITE[k % len(NONSUITE)]
+        rows.append({'name': nm, 'time': time + gap * len(rows), 'duration': 1, 'log': b'%03d-%s.log' % (len(rows) + 1, nm)})
+    for s in suites:
+        ln = s.get('logname')
+        if ln is None:
+            ln = b'%03d-%s.log' % (len(rows) + 1, s['name'].replace(b'/', b'-')[:200])
+        rows.append({'name': s['name'], 'exit': s.get('exit', 0), 'time': time + gap * len(rows), 'duration': 1, 'log': ln})
+        if ln not in seen and s.get('log', PASSLOG) is not None:
+            fs.append([ln, s.get('log', PASSLOG)])
+        seen.add(ln)
+    for k in range(post):
+        rows.append({'name': b'post%d' % k, 'time': time + gap * len(rows), 'duration': 1, 'log': b''})
+    rows.append({'name': b'end', 'time': time + gap * len(rows), 'duration': duration})
+    aux = {'dmesg': b'OpenBSD 7.2 (GENERIC.MP) #1\n', 'comment': b'comment\n', 'tags': b'cvs\n'}
+    aux.update(files or {})
+    for k in ('dmesg', 'comment', 'tags'):
+        if aux[k] is not None:
+            fs.append([k.encode(), aux[k]])
+    for k in range(patches):
+        fs.append([b'src.diff.%d' % (k + 1), b'--- a\n+++ b\n@@ %d @@\n' % k])
+    st = step_csv(rows) if step is None else step
+    return {'name': date.hex(), 'kind': 'dir', 'step': st.hex(), 'files': [[a.hex(), b.hex()] for a, b in fs]}
+
+
+def b_case(arches):
+    """arches: [(arch name, [entries])]"""
+    return {'stream': 'bnd', 'arches': [{'arch': a.hex(), 'entries': es} for a, es in arches]}
+
+
+def S(name, exit=0, log=PASSLOG, logname=None):
+    return {'name': name, 'exit': exit, 'log': log, 'logname': logname}
+
+
+def _j(rng, n):
+    """jitter 0..n from the generator's rng; the corpus form (rng None) is 0"""
+    return rng.randint(0, n) if rng else 0
+
+
+def bnd_ninv(n, rng=None):
+    """n invocations of one arch (r->invocations, the directories vector and the runs of bin/all hold n elements), a
+    second arch with one invocation in the middle; runs missing by a pattern, one suite failing now and then"""
+    ents = []
+    for i in range(n):
+        su = [S(b'bin/all')]
+        if i % 2 == 0:
+            su.append(S(b'bin/even', 1 if i % 4 == 0 else 0, FAILLOG if i % 4 == 0 else PASSLOG))
+        if i >= n // 2:
+            su.append(S(b'lib/late'))
+        if i % 3 == _j(rng, 2):
+            su.insert(0, S(b'../dep/third', 0, b'==== t ====\nSKIPPED\n'))
+        ents.append(b_inv(b_date(i), DAY0 + i * 86400, su, duration=(i * 700) % 4000, pre=i % 3))
+    other = [b_inv(b_date(n // 2), DAY0 + (n // 2) * 86400 + 43200, [S(b'bin/all'), S(b'lib/late', 1, FAILLOG)])]
+    return b_case([(b'amd64', ents), (b'arm64', other)])
+
+
+def bnd_narch(n, rng=None):
+    """n arch arguments with one invocation each, all under the same directory name, distinct start times"""
+    out = []
+    for k in range(n):
+        su = [S(b'bin/all')] + ([S(b'bin/odd', 2, FAILLOG)] if k % 2 else []) + ([S(b'lib/k%d' % (k % 3))] if k % 5 else [])
+        out.append((b'arch%02d' % k, [b_inv(b_date(3), DAY0 + 100 * k + _j(rng, 50), su, duration=60 * k)]))
+    return b_case(out)
+
+
+def bnd_nsuites(arg, rng=None):
+    """[n, kind]: n suites in one invocation (rows of step.csv: n + 1, n and n + 2 in the three invocations), all of
+    one kind (fail / pass / nonreg: the three vectors of sort_suites) or mixed"""
+    n, kind = arg
+
+    def one(k):
+        kd = kind if kind != 'mix' else ['fail', 'pass', 'nonreg'][k % 3]
+        nm = (b'../dep/s%03d' if kd == 'nonreg' else b'gen/s%03d') % k
+        return S(nm, 1, FAILLOG) if kd == 'fail' else S(nm)
+    su = [one(k) for k in range(n)]
+    if rng:
+        rng.shuffle(su)
+    return b_case([(b'amd64', [b_inv(b_date(1), DAY0, su, pre=0),
+                               b_inv(b_date(2), DAY0 + 86400, su[:max(0, n - 1)], pre=0, duration=1300),
+                               b_inv(b_date(3), DAY0 + 2 * 86400, su, pre=1, duration=100)])])
+
+
+def bnd_grid(arg, rng=None):
+    """[s, i]: s suites in each of i invocations (s * i runs on one page)"""
+    s, n = arg
+    su = [S(b'gen/g%03d' % k, 1 if k % 7 == 3 else 0, FAILLOG if k % 7 == 3 else PASSLOG) for k in range(s)]
+    return b_case([(b'amd64', [b_inv(b_date(i), DAY0 + i * 86400, su, pre=0, duration=i) for i in range(n)])])
+
+
+def _long(n, last=b'x', head=b'lib/'):
+    """a suite name of exactly n bytes"""
+    if n == 1:
+        return b'/'
+    if n <= len(head):
+        return (b'a' * (n - 1)) + b'/'
+    return head + b'n' * (n - len(head) - 1) + last
+
+
+def bnd_namelen(n, rng=None):
+    """a suite name of n bytes, a second one that differs in the last byte only, and a short one; the log names are
+    short (the name is not a path component for robsd-regress-html)"""
+    a, b = _long(n), _long(n, b'y')
+    su1 = [S(a, 0, PASSLOG, b'001-long.log'), S(b'bin/short')] + ([S(b, 1, FAILLOG, b'003-other.log')] if b != a else [])
+    su2 = [S(b'bin/short', 1, FAILLOG)] + ([S(b, 0, PASSLOG, b'002-other.log')] if b != a else []) + [S(a, 0, PASSLOG, b'003-long.log')]
+    return b_case([(b'amd64', [b_inv(b_date(1), DAY0, su1, pre=_j(rng, 2)), b_inv(b_date(2), DAY0 + 86400, su2, pre=0)])])
+
+
+def bnd_lognamelen(n, rng=None):
+    """a log name of n bytes (a path component: the file exists up to NAME_MAX = 255; beyond, the row names a file that
+    cannot exist - the missing-log error)"""
+    ln = b'001-' + b'l' * (n - 8) + b'.log'
+    return b_case([(b'amd64', [b_inv(b_date(1), DAY0, [S(b'bin/longlog', 1, FAILLOG if n <= 255 else None, ln), S(b'bin/x')], pre=0),
+                               b_inv(b_date(2), DAY0 + 86400, [S(b'bin/longlog'), S(b'bin/x')])])])
+
+
+def bnd_archlen(n, rng=None):
+    """an arch name of n bytes (argv, mkdir below the output directory: NAME_MAX caps it at 255)"""
+    return b_case([(b'A' * n, [b_inv(b_date(1), DAY0, [S(b'bin/x'), S(b'bin/y', 1, FAILLOG)]),
+                               b_inv(b_date(2), DAY0 + 86400, [S(b'bin/x')], patches=1)]),
+                   (b'amd64', [b_inv(b_date(1), DAY0 + 5, [S(b'bin/y')])])])
+
+
+def bnd_datelen(n, rng=None):
+    """invocation directory names of n bytes (invocation_entry.basename is char[NAME_MAX + 1]: 255 is the exact fit);
+    two that differ in the last byte only"""
+    a, b = b'2022-10-01.' + b'1' * (n - 11), b'2022-10-01.' + b'1' * (n - 12) + b'2'
+    return b_case([(b'amd64', [b_inv(a, DAY0, [S(b'bin/x'), S(b'bin/y', 1, FAILLOG)], duration=100),
+                               b_inv(b, DAY0 + 86400, [S(b'bin/x')], duration=2000, patches=2)])])
+
+
+NAMESETS = {
+    # prefixes of each other; '-' for '/' (the log name robsd derives collides: see unnumbered below)
+    # (every list is in DESCENDING strcmp order where it matters: the suites enter the map in list order, so a compare
+    # that calls two of them equal - strncmp with the shorter length, strcasecmp, signed char - leaves them unsorted)
+    'prefix': [b'a/bc', b'a/b/c/d', b'a/b/c', b'a/b/', b'a/b.c', b'a/b-c', b'a/b', b'a//b', b'a/', b'a-b/c'],
+    'case': [b'z/Z', b'a/b', b'a/B', b'Z/z', b'A/b', b'A/B'],
+    # byte order: '-' 2d < '.' 2e < '/' 2f < '0' 30, 'Z' 5a < 'a' 61, 7f < 80 < ff as unsigned char
+    'adjacent': [b'a0/x', b'a/\xff', b'a/\x80', b'a/\x7f', b'a/x', b'a/!x', b'a/ x', b'a//x', b'a./x', b'a-/x', b'Z/x'],
+    'sep': [b'a.b/c', b'a b/c', b'a/b c', b'a=b/c', b'a/b=c', b'a/.', b'a/..', b'./a', b'a/b;c', b'a/b:c'],
+    'dotdot': [b'../', b'../x', b'..//x', b'.../x', b'..x/y', b'x/../y', b'../../x', b'./../x', b'..', b'../x/'],
+    # the five characters of HTML markup at the first and at the last position; < and the double quote put the case
+    # outside the property (markup_names), the other three are judged
+    'markup-in': [b'>a/b', b'a/b>', b'&a/b', b'a/b&', b"'a/b", b"a/b'", b'a>b/&c\'d', b'&amp;/x', b'a/&lt;'],
+    'markup-lt': [b'<a/b', b'a/b<', b'a/b'],
+    'markup-dq': [b'"a/b', b'a/b"', b'a/b'],
+    # a comma ends the field: the row has too many fields, the step file is rejected
+    'comma': [b'a,b/c', b'a/b'],
+}
+
+
+def bnd_names(arg, rng=None):
+    """[set, numbered]: the names of NAMESETS[set] as suites of three invocations, failing in different subsets (the
+    order of the rows is by failures, then strcmp); numbered False: log names <name with - for />.log as robsd would make
+    them without the step number, so that a/b-c and a-b/c share one log file"""
+    key, numbered = arg
+    names = list(NAMESETS[key])
+    if rng:
+        rng.shuffle(names)
+    ents = []
+    for i in range(3):
+        su = []
+        for k, nm in enumerate(names):
+            if (k + i) % 4 == 3 and key != 'comma':
+                continue
+            # every fourth name fails in the first and the last invocation (two failures each: they sort first, by name
+            # among themselves), the others never fail, so that strcmp alone orders most of the rows
+            bad = k % 4 == 1 and i != 1
+            ln = None if numbered else nm.replace(b'/', b'-') + b'.log'
+            su.append(S(nm, 1 if bad else 0, FAILLOG if bad else PASSLOG, ln))
+        ents.append(b_inv(b_date(i), DAY0 + i * 86400, su, pre=i % 2))
+    return b_case([(b'amd64', ents)])
+
+
+TIMESETS = {
+    'zero': [0, 1, 2],
+    'neg': [-1, 0, 1, -2],
+    'i31': [P31 - 1, P31, P31 + 1],
+    'u32': [P32 - 1, P32, P32 + 1],
+    # 2^31 apart: the order flips when the compare is done in int; 2^32 apart: equal in 32 bits
+    'apart31': [DAY0, DAY0 + P31, DAY0 + 1, DAY0 + P31 + 1],
+    'apart32': [5, 5 + P32, 5 + 2 * P32, 6, 6 + P32],
+    'apart32day': [DAY0, DAY0 + P32, DAY0 + 3600, DAY0 + P32 + 3600],
+    'max': [P63 - 1, P63 - 2, 0, -P63, -P63 + 1],
+    'adjacent': [DAY0, DAY0 + 1, DAY0 + 2, DAY0 + 3],
+    # not a start time: strtonum says "too large" / "too small"
+    'over': [P63],
+    'under': [-P63 - 1],
+}
+
+
+def bnd_times(key, rng=None):
+    """invocations with the start times TIMESETS[key], spread over two arches in turn (directory names in list order, so
+    that name order and time order differ); every row of an invocation carries the same time (gap 0)"""
+    ts = TIMESETS[key]
+    ents = {0: [], 1: []}
+    for i, t in enumerate(ts):
+        su = [S(b'bin/all', 1 if i == 1 else 0, FAILLOG if i == 1 else PASSLOG)] + ([S(b'bin/some')] if i % 2 == 0 else []) + \
+            ([S(b'lib/rare')] if i == len(ts) - 1 else [])
+        ents[i % 2].append(b_inv(b_date(i), t, su, duration=100 * i, gap=0, pre=_j(rng, 1)))
+    return b_case([(b'amd64', ents[0]), (b'arm64', ents[1])])
+
+
+DURSETS = {
+    'small': [0, 1, 59, 60, 61, 3599, 3600, 3601, 86399, 86400],
+    'delta': [1000, 1600, 1601, 1001, 400, 401, 1001, 1601],         # 600 / 601 apart in both directions
+    'big': [P31 - 1, P31, P32 - 1, P32, P63 - 1, 0],
+    # 2^32 apart: no change when the difference is taken in int; 3600 * 2^31, 3600 * 2^32: the hours wrap in (int)
+    'apart32': [5, 5 + P32, 5 + P32 + 601, 5 + P31, 5],
+    'hours': [3600 * P31 - 1, 3600 * P31, 3600 * P32, 3600 * P32 + 60 * 59, 60 * P32],
+    'negative': [-1, -60, -3600, -3661, 0],
+    'over': [P63],
+}
+
+
+def bnd_durations(key, rng=None):
+    """successive invocations of one arch whose end rows carry the durations DURSETS[key] (render_duration, and
+    duration_delta against the previous one)"""
+    ents = [b_inv(b_date(i), DAY0 + i * 86400, [S(b'bin/x')] + ([S(b'bin/y', 1, FAILLOG)] if i % 2 else []), duration=d,
+                  pre=_j(rng, 1)) for i, d in enumerate(DURSETS[key])]
+    return b_case([(b'amd64', ents)])
+
+
+EXITS = [0, 1, 2, 123, 124, 125, 255, 256, -1, -124, P31 - 1, P31, P31 + 124, P32 - 1, P32, P32 + 1, P32 + 124, P63 - 1, -P63]
+XLOGS = [PASSLOG, FAILLOG, b'==== t ====\nUNEXPECTED_PASS\n', b'==== t ====\nEXPECTED_FAIL\n', b'==== t ====\nSKIPPED\n']
+
+
+def bnd_exits(k, rng=None):
+    """one suite per exit code of EXITS (0 / timeout / other decide the status: an exit code that is 0 or 124 only in
+    its low 32 bits is neither), log number k of XLOGS in the first invocation, the next one in the second"""
+    su1 = [S(b'exit/e%02d' % i, e, XLOGS[k % len(XLOGS)]) for i, e in enumerate(EXITS)]
+    su2 = [S(b'exit/e%02d' % i, e, XLOGS[(k + 1) % len(XLOGS)]) for i, e in enumerate(EXITS)]
+    if rng:
+        rng.shuffle(su2)
+    return b_case([(b'amd64', [b_inv(b_date(1), DAY0, su1), b_inv(b_date(2), DAY0 + 86400, su2)])])
+
+
+def bnd_exitover(v, rng=None):
+    """an exit code outside int64_t: strtonum refuses the step file"""
+    return b_case([(b'amd64', [b_inv(b_date(1), DAY0, [S(b'bin/x', v)])])])
+
+
+def bnd_rate(arg, rng=None):
+    """[total, fail]: one invocation with total suites of which fail fail (the pass rate is
+    floor(100 * (total - fail) / total)), a second one with one suite"""
+    total, fail = arg
+    su = [S(b'r/s%04d' % k, 1 if k < fail else 0, FAILLOG if k < fail else PASSLOG, b'f.log' if k < fail else b'p.log')
+          for k in range(total)]
+    if rng:
+        rng.shuffle(su)
+    return b_case([(b'amd64', [b_inv(b_date(1), DAY0, su, pre=0), b_inv(b_date(2), DAY0 + 86400, [S(b'r/s0000')])])])
+
+
+def _pad_to(n, tail, line=b'cc -O2 -pipe -c file%05d.c -o file.o'):
+    """bytes of exactly n that end with tail, filled with compiler lines (every line below 64 bytes)"""
+    out, k = [], 0
+    room = n - len(tail)
+    if room < 0:
+        return tail[-n:] if n else b''
+    cur = 0
+    while room - cur > 80:
+        l = (line % k) + b'\n'
+        out.append(l)
+        cur += len(l)
+        k += 1
+    rest = room - cur
+    if rest:
+        out.append(b'#' * (rest - 1) + b'\n')
+    return b''.join(out) + tail
+
+
+def bnd_logsize(arg, rng=None):
+    """[n, kind]: a log of exactly n bytes.  pass: no keyword, the copy is the whole file; fail: one block of n bytes
+    (marker first) that ends with FAILED + newline - the extracted block is the file; nonl: the same without the final
+    newline; straddle: the FAILED line straddles offset n (the keyword starts 3 bytes before it), 100 more bytes follow;
+    trace: xtrace lines before and after (regress_log_trim cuts both)"""
+    n, kind = arg
+    mark = b'==== big ====\n'
+    if kind == 'pass':
+        log, ex = _pad_to(n, b''), 0
+    elif kind == 'fail':
+        log, ex = (mark + _pad_to(n - len(mark), b'test FAILED\n')) if n >= 40 else _pad_to(n, b'FAILED\n'), 1
+    elif kind == 'nonl':
+        log, ex = (mark + _pad_to(n - len(mark), b'test FAILED')) if n >= 40 else _pad_to(n, b'FAILED'), 1
+    elif kind == 'straddle':
+        log, ex = mark + _pad_to(n - 3 - len(mark), b'') + b'FAILED here\n' + _pad_to(100, b'') + b'==== next ====\nok\n', 1
+    elif kind == 'trace':
+        log, ex = b'+ set -e\n+ cd /usr/src\n' + _pad_to(n - 23 - 14, b'') + b'+ exit 0\n+ true\n', 0
+    else:
+        raise ValueError(kind)
+    return b_case([(b'amd64', [b_inv(b_date(1), DAY0, [S(b'bin/big', ex, log), S(b'bin/x')], pre=_j(rng, 2)),
+                               b_inv(b_date(2), DAY0 + 86400, [S(b'bin/big'), S(b'bin/x')])])])
+
+
+LOGSHAPES = {
+    'empty': b'',
+    'newline': b'\n',
+    'nonl': b'==== t ====\nok',
+    'nonl-failed': b'==== t ====\nFAILED',
+    'crlf': b'==== t1 ====\r\nok\r\n==== t2 ====\r\nFAILED\r\n==== t3 ====\r\nok\r\n',
+    'cr-only': b'==== t1 ====\rFAILED\rok\r',
+    'nul': b'==== t1 ====\nbefore\x00FAILED\n==== t2 ====\nFAILED\x00after\nlast\n',
+    'nul-first': b'\x00==== t1 ====\nFAILED\n',
+    'nul-trim': b'+ trace\nkept\nalso\x00hidden\nnot reached by %.*s\n',
+    'only-trace': b'+ a\n+ b\n+ c\n',
+    'only-marker': b'==== t ====\n',
+    'marker-last-nonl': b'ok\n==== t ====',
+    'failed-first': b'FAILED\n',
+    'every-keyword': b'==== a ====\nFAILED\n==== b ====\nSKIPPED\n==== c ====\nEXPECTED_FAIL\n==== d ====\nUNEXPECTED_PASS\n'
+                     b'==== e ====\nDISABLED\n===> sub\nok\n',
+    'blank-lines': b'\n\n==== t ====\n\nFAILED\n\n',
+    'long-line': b'==== t ====\n' + b'x' * 5000 + b' FAILED ' + b'y' * 5000 + b'\n',
+}
+
+
+def bnd_logshape(key, rng=None):
+    """the log LOGSHAPES[key] under exit 0 and under exit 1 (two suites), twice"""
+    lg = LOGSHAPES[key]
+    su = [S(b'bin/zero', 0, lg), S(b'bin/one', 1, lg), S(b'bin/timeout', 124, lg)]
+    return b_case([(b'amd64', [b_inv(b_date(1), DAY0, su, pre=_j(rng, 2)), b_inv(b_date(2), DAY0 + 86400, su[:2])])])
+
+
+def bnd_stepshape(key, rng=None):
+    """shapes of step.csv: the second of three invocations carries the shape"""
+    rows = [b'1,env,0,1,0,001-env.log,root,%d,0' % (DAY0 + 86400), b'2,bin/x,1,5,0,002-bin-x.log,root,%d,0' % (DAY0 + 86401),
+            b'3,bin/y,0,5,0,003-bin-y.log,root,%d,0' % (DAY0 + 86402), b'4,end,0,700,0,,root,%d,0' % (DAY0 + 86403)]
+    body = b'\n'.join(rows) + b'\n'
+    if key == 'header-only':
+        st = HDR
+    elif key == 'header-nonl':
+        st = HDR[:-1]
+    elif key == 'nonl':
+        st = HDR + body[:-1]
+    elif key == 'crlf':
+        st = (HDR + body).replace(b'\n', b'\r\n')
+    elif key == 'nul-after-rows':
+        st = HDR + body + b'\x00garbage,that,is,never,read\n'
+    elif key == 'nul-in-row':
+        st = HDR + body.replace(b'bin/y', b'bin\x00/y')
+    elif key == 'blank-line':
+        st = HDR + rows[0] + b'\n\n' + b'\n'.join(rows[1:]) + b'\n'
+    elif key == 'blank-last':
+        st = HDR + body + b'\n'
+    elif key == 'header-twice':
+        st = HDR + HDR + body
+    elif key == 'no-optional-columns':
+        st = b'step,name,exit,duration,user,time\n1,bin/x,1,5,root,%d\n2,end,0,700,root,%d\n' % (DAY0 + 86400, DAY0 + 86403)
+    elif key == 'permuted-columns':
+        st = b'time,log,name,step,exit,duration,delta,user,skip\n%d,002-bin-x.log,bin/x,1,1,5,0,root,0\n' \
+             b'%d,003-bin-y.log,bin/y,2,0,5,0,root,0\n%d,,end,3,0,700,0,root,0\n' % (DAY0 + 86400, DAY0 + 86401, DAY0 + 86403)
+    elif key == 'unsorted-steps':
+        st = HDR + b'\n'.join([rows[3], rows[2], rows[1], rows[0]]) + b'\n'
+    elif key == 'missing-log':
+        st = HDR + body.replace(b'003-bin-y.log', b'003-absent.log')
+    elif key == 'short-row':
+        st = HDR + body + b'5,bin/z,0\n'
+    elif key == 'long-row':
+        st = HDR + body.replace(b',root,', b',root,extra,', 1)
+    elif key == 'plus-sign':
+        st = HDR + body.replace(b'2,bin/x,1,', b'2,bin/x,+1,')
+    elif key == 'leading-zero':
+        st = HDR + body.replace(b'2,bin/x,1,', b'2,bin/x,0124,')
+    elif key == 'blank-in-number':
+        st = HDR + body.replace(b'2,bin/x,1,', b'2,bin/x, 1,')
+    elif key == 'hex-number':
+        st = HDR + body.replace(b'2,bin/x,1,', b'2,bin/x,0x10,')
+    elif key in ('big-4096', 'big-8192', 'big-65536'):
+        # the file is exactly that many bytes: non-suite rows fill it, the suite rows and end come last
+        n = int(key[4:])
+        out, k = [HDR], 0
+        tail = b''.join(b'%d,%s,%s' % (9000 + j, [b'bin/x,1,5,0,002-bin-x.log', b'bin/y,0,5,0,003-bin-y.log', b'end,0,700,0,'][j],
+                                       b'root,%d,0\n' % (DAY0 + 86400 + 50000)) for j in range(3))
+        size = len(HDR) + len(tail)
+        while n - size >= 120:
+            l = b'%d,fill%d,0,1,0,,root,%d,0\n' % (k + 1, k, DAY0 + 86400 + k)
+            out.append(l)
+            size += len(l)
+            k += 1
+        l = b'%d,fill%d,0,1,0,,root,%d,0\n' % (k + 1, k, DAY0 + 86400 + k)
+        need = n - size - len(l)
+        assert need >= 0
+        out.append(b'%d,fill%d%s,0,1,0,,root,%d,0\n' % (k + 1, k, b'p' * need, DAY0 + 86400 + k))
+        st = b''.join(out) + tail
+        assert len(st) == n, (len(st), n)
+    else:
+        raise ValueError(key)
+    files = [S(b'bin/x', 1, FAILLOG), S(b'bin/y')]
+    mid = b_inv(b_date(2), DAY0 + 86400, files, pre=1, step=st)
+    return b_case([(b'amd64', [b_inv(b_date(1), DAY0, [S(b'bin/x'), S(b'bin/y')], duration=100), mid,
+                               b_inv(b_date(3), DAY0 + 2 * 86400, [S(b'bin/x')], duration=100)])])
+
+
+def bnd_aux(arg, rng=None):
+    """[file, shape]: dmesg / comment / tags empty, absent, without final newline, of exactly 4095..8193 bytes; for tags
+    the word cvs ends the file (strstr on the buffer NUL-terminated after the fact)"""
+    which, shape = arg
+    if shape == 'absent':
+        c = None
+    elif shape == 'empty':
+        c = b''
+    elif shape == 'nonl':
+        c = b'cvs' if which == 'tags' else b'one line'
+    elif shape == 'nul':
+        c = b'kernel\x00 cvs\n' if which == 'tags' else b'before\x00after\n'
+    else:
+        n = int(shape)
+        c = _pad_to(n, b' cvs' if which == 'tags' else b'last line\n', line=b'tag%05d' if which == 'tags' else b'dmesg line %05d')
+        if which == 'tags':
+            c = c.replace(b'\n', b' ')
+    return b_case([(b'amd64', [b_inv(b_date(1), DAY0, [S(b'bin/x')], files={which: c}, patches=_j(rng, 2)),
+                               b_inv(b_date(2), DAY0 + 86400, [S(b'bin/x', 1, FAILLOG)])])])
+
+
+def bnd_dirnum(nums, rng=None):
+    """invocations DATE.n for the n given, started in that order (DATE.10 is younger than DATE.9 and sorts before it):
+    the walk is by name, the columns by time, the arrow compares with the predecessor of the WALK"""
+    ents = [b_inv(b'2022-10-24.%d' % n, DAY0 + 3600 * i, [S(b'bin/x')] + ([S(b'bin/y', 1, FAILLOG)] if i % 2 else []),
+                  duration=[100, 2000, 100, 5000, 900, 100, 3000][i % 7]) for i, n in enumerate(nums)]
+    if rng:
+        rng.shuffle(ents)
+    return b_case([(b'amd64', ents)])
+
+
+def bnd_npatches(n, rng=None):
+    """n files src.diff.* (the vector of invocation_find; "patches (n)")"""
+    return b_case([(b'amd64', [b_inv(b_date(1), DAY0, [S(b'bin/x')], patches=n),
+                               b_inv(b_date(2), DAY0 + 86400, [S(b'bin/x')], patches=_j(rng, 1))])])
+
+
+def bnd_nruns(n, rng=None):
+    """one suite recorded in n invocations spread over three arches (suite->runs holds n, in arch-then-name order, and
+    is sorted by time), a second suite in every other one"""
+    ents = {0: [], 1: [], 2: []}
+    for i in range(n):
+        su = [S(b'bin/all', 1 if i % 5 == 0 else 0, FAILLOG if i % 5 == 0 else PASSLOG)] + ([S(b'bin/half')] if i % 2 else [])
+        ents[i % 3].append(b_inv(b_date(i // 3), DAY0 + 86400 * (i // 3) + 3600 * (i % 3), su, duration=50 * i))
+    return b_case([(b'amd64', ents[0]), (b'arm64', ents[1]), (b'sparc64', ents[2])])
+
+
+BND = {'ninv': bnd_ninv, 'narch': bnd_narch, 'nsuites': bnd_nsuites, 'grid': bnd_grid, 'namelen': bnd_namelen,
+       'lognamelen': bnd_lognamelen, 'archlen': bnd_archlen, 'datelen': bnd_datelen, 'names': bnd_names, 'times': bnd_times,
+       'durations': bnd_durations, 'exits': bnd_exits, 'exitover': bnd_exitover, 'rate': bnd_rate, 'logsize': bnd_logsize,
+       'logshape': bnd_logshape, 'stepshape': bnd_stepshape, 'aux': bnd_aux, 'dirnum': bnd_dirnum, 'npatches': bnd_npatches,
+       'nruns': bnd_nruns}
+
+
+def bnd_tag(cls, arg):
+    a = '-'.join(str(x) for x in arg) if isinstance(arg, (list, tuple)) else str(arg)
+    return '%s:%s' % (cls, a)
+
+
+# the boundary cases that ALSO run under the AddressSanitizer build in the quick tier (the thorough tier runs all of them):
+# the sizes and counts at or just above a power of two, where a buffer one element short is overrun silently.  The
+# sanitizer start-up is expensive in system time (all 240 cases doubled the wall time of the corpus), hence the choice
+BND_ASAN = {'namelen:256', 'namelen:1025', 'namelen:4097', 'lognamelen:255', 'archlen:255', 'datelen:255',
+            'ninv:16', 'ninv:17', 'ninv:33', 'ninv:65', 'nruns:17', 'nruns:65', 'narch:17', 'npatches:17',
+            'nsuites:17-mix', 'nsuites:33-mix', 'nsuites:65-mix', 'nsuites:256-mix',
+            'logsize:4097-fail', 'logsize:8192-fail', 'logsize:8193-fail', 'logsize:8193-pass', 'logsize:8193-nonl',
+            'logsize:16385-pass', 'aux:dmesg-8193', 'aux:tags-4096', 'aux:tags-8192', 'aux:tags-8193',
+            'stepshape:big-8192', 'stepshape:big-65536', 'logshape:long-line', 'logshape:nul'}
+
+
+def bnd_case(cls, arg, rng=None):
+    c = BND[cls](arg, rng)
+    c['bnd'] = bnd_tag(cls, arg)
+    return c
+
+
+def corpus_bnd_args(thorough=False):
+    """{class: [args]} as listed by corpus/C14/b14_*.json - the generator draws from the same lists"""
+    out = {}
+    for p in sorted(glob.glob(os.path.join(common.VERIF, 'corpus', 'C14', 'b14_*.json'))):
+        j = json.load(open(p))
+        out.setdefault(j['bnd'], [])
+        out[j['bnd']] += j['args'] + (j.get('slow', []) if thorough else [])
+    return out
+
+
+def gen_bnd(rng, thorough=False):
+    """a boundary class drawn from the lists of corpus/C14/b14_*.json (the slow arguments in the thorough tier only), built
+    with the generator's rng so that the secondary parameters (order of the suites, extra rows, offsets) vary"""
+    table = corpus_bnd_args(thorough)
+    if not table:
+        raise common.BuildFailure('corpus/C14 holds no boundary class (b14_*.json)')
+    cls = rng.choice(sorted(table))
+    return bnd_case(cls, rng.choice(table[cls]), rng)
 
 
 # ---- what a case contains (for the distribution, the non-triviality rule and the signatures) -------------
@@ -625,7 +1163,27 @@ def run_one(binary, work, idx, case, tag='', rerun=False):
         shutil.rmtree(root, ignore_errors=True)
 
 
-def load_corpus():
+def run_driver_par(drv, qs, nproc=6):
+    """common.run_driver over several driver processes: the questions are dealt out by length (the model's cost grows
+    with the input, the boundary classes hold a few big ones), the answers come back in the order of the questions"""
+    if len(qs) < 2 * nproc:
+        nproc = max(1, len(qs) // 2)
+    order = sorted(range(len(qs)), key=lambda i: -len(qs[i]))
+    bins = [[] for _ in range(nproc)]
+    load = [0] * nproc
+    for i in order:
+        k = load.index(min(load))
+        bins[k].append(i)
+        load[k] += len(qs[i]) * len(qs[i]) // 4096 + len(qs[i]) + 64      # a quadratic share: long inputs weigh more
+    ans = [None] * len(qs)
+    with ThreadPoolExecutor(nproc) as ex:
+        for b, out in zip(bins, ex.map(lambda b: common.run_driver(drv, [qs[i] for i in b], timeout=1800) if b else [], bins)):
+            for i, a in zip(b, out):
+                ans[i] = a
+    return ans
+
+
+def load_corpus(thorough=False):
     """corpus/C14/*.json, in name order; they run first.  Every fixed:/known entry of known_findings.json for C14 names
     its replay here, so a missing or empty directory is a broken check, not an empty list."""
     d = os.path.join(common.VERIF, 'corpus', 'C14')
@@ -645,7 +1203,17 @@ def load_corpus():
     missing = sorted(want - {os.path.basename(x) for x in paths})
     if missing:
         raise common.BuildFailure('corpus/C14 lacks the replay(s) known_findings.json names: %s' % ', '.join(missing))
-    return [json.load(open(x)) for x in paths]
+    out = []
+    for x in paths:
+        j = json.load(open(x))
+        if 'bnd' in j and 'arches' not in j:
+            # a boundary class in compact form: one case per argument; `slow` arguments (the extracted model needs more
+            # than a few seconds for them) run in the thorough tier only
+            for a in j['args'] + (j.get('slow', []) if thorough else []):
+                out.append(bnd_case(j['bnd'], a))
+        else:
+            out.append(j)
+    return out
 
 
 def row_signatures(report, matrix):
@@ -759,16 +1327,25 @@ def check_self(res, slf, slfrows, pg, feat, outside):
             res.tie_errors.append('C14_index_roundtrip_input fails: the names of the case are plain and page_safeb is false')
 
 
-def evaluate(ctx, cases, res, impl, asan_impl=None, asan_streams=('dup',), rerun_every=5):
+def evaluate(ctx, cases, res, impl, asan_impl=None, asan_streams=('dup',), rerun_every=5, asan_all_bnd=False):
     drv = ctx.build_driver('ht', withz=True)
     work = ctx.mkscratch('c14work')
+    # the extracted list functions are not tail recursive: a page of 65 x 65 runs (640 KB) overflows the 8 MiB stack in
+    # page_bytes ("EXN Stack overflow"); the driver is started with the stack limit lifted
+    wrap = os.path.join(work, 'ht_unlimited')
+    if not os.path.exists(wrap):
+        with open(wrap, 'w') as fh:
+            fh.write('#!/bin/sh\nulimit -s unlimited 2>/dev/null || ulimit -s 4000000 2>/dev/null\nexec "%s"\n' % drv)
+        os.chmod(wrap, 0o755)
+    drv = wrap
     binary = os.path.join(impl, 'robsd-regress-html')
     with ThreadPoolExecutor(8) as ex:
         obs = list(ex.map(lambda ic: run_one(binary, work, ic[0], ic[1], rerun=(ic[0] % rerun_every == 0)), enumerate(cases)))
         aobs = [None] * len(cases)
         if asan_impl:
             ab = os.path.join(asan_impl, 'robsd-regress-html')
-            idx = [i for i, c in enumerate(cases) if c.get('stream') in asan_streams]
+            idx = [i for i, c in enumerate(cases) if c.get('stream') in asan_streams and
+                   (c.get('stream') != 'bnd' or asan_all_bnd or c.get('bnd') in BND_ASAN)]
             for i, o in zip(idx, ex.map(lambda i: run_one(ab, work, i, cases[i], 'a'), idx)):
                 aobs[i] = o
     qs = []
@@ -780,7 +1357,7 @@ def evaluate(ctx, cases, res, impl, asan_impl=None, asan_streams=('dup',), rerun
         qs.append(' '.join(['selfrows'] + it))
         qs.append(' '.join(['page'] + it))
         qs.append(' '.join(['judge'] + it + judge_tokens(ob['rc'], ob['index'] if ob['rc'] == 0 else None, ob['tree'])))
-    ans = common.run_driver(drv, qs)
+    ans = run_driver_par(drv, qs)
     K = 6
     for i, (c, ob) in enumerate(zip(cases, obs)):
         m, rt, slf, slfrows, pg, jd = ans[K * i:K * i + K]
@@ -789,6 +1366,8 @@ def evaluate(ctx, cases, res, impl, asan_impl=None, asan_streams=('dup',), rerun
         outside = markup_names(c)
         check_self(res, slf, slfrows, pg, feat, outside)
         res.count('stream=' + c.get('stream', 'corpus'))
+        if c.get('bnd'):
+            res.count('class: ' + c['bnd'])
         res.count('arches=%d' % feat['narch'])
         res.count('invocations=%s' % (feat['ninv'] if feat['ninv'] < 8 else '8-63' if feat['ninv'] < 64 else '64+'))
         res.count('exit=%s' % ob['rc'])
@@ -982,28 +1561,41 @@ def run(ctx, n=None, streams=None):
                 'suite runs after another arch\'s invocation has started; special: suite and log names '
                 'with &, quote, semicolon, blank, tab, %, #, ?, UTF-8; markup: names with <, double quote or white space at an '
                 'end (outside the property: compared byte for byte, not judged); many: 30-80 suites; biglog: one log above '
-                '8 KiB), 1-4 arch arguments, '
+                '8 KiB; bnd: the boundary classes of corpus/C14/b14_*.json - counts 0/1/15-17/31-33/63-65/256 of invocations, '
+                'arches, suites, runs and patches, names of 1..4097 bytes (suite) and up to NAME_MAX (log, arch, directory), '
+                'prefix / case / byte-order related names, the five markup characters first and last, start times, durations '
+                'and exit codes at 0, 2^31, 2^32, 2^63 and 2^31 / 2^32 apart, pass rates 0/1 .. 199/200, logs of exactly '
+                '0..16385 bytes and log / step.csv / dmesg / comment / tags shapes; each printed as `class: ...`), '
+                '1-4 arch arguments, '
                 'suites drifting over time, several invocations per day, exit codes incl. 124, logs with every marker '
                 'kind, tags/dmesg/comment/patches present or not, attic/hidden/plain-file entries; non-trivial = exit 0 '
                 'with at least two invocations, two suites and invocations that differ in the suites they ran, names plain; '
                 'distinct by content hash')
     n = n or ctx.budget(220, 3000)
     mix = streams or (['plain'] * 7 + ['tie'] * 4 + ['dup'] * 3 + ['error'] * 3 + ['wide'] * 1 + ['special'] * 2 + ['many'] * 1 +
-                      ['overlap'] * 3 + ['markup'] * 1)
+                      ['overlap'] * 3 + ['markup'] * 1 + ['bnd'] * 2)
+    thorough = ctx.tier == 'thorough'
     fixed = [] if streams else [gen_case(ctx.rng, 'wide', {'ninv': 65}), gen_case(ctx.rng, 'biglog'),
                                 gen_case(ctx.rng, 'overlap'), gen_case(ctx.rng, 'markup')]
-    cases = load_corpus() + fixed + [gen_case(ctx.rng, mix[i % len(mix)]) for i in range(n)]
+    cases = load_corpus(thorough) + fixed + [gen_case(ctx.rng, mix[i % len(mix)], {'thorough': thorough} if mix[i % len(mix)] == 'bnd' else None)
+                                             for i in range(n)]
     res.samples = [{'stream': c.get('stream'), 'features': features(c)} for c in cases[:4]]
-    res.assumptions = ['up to 70 invocations and 80 suites per case in the correspondence (the theorems have no bound); '
+    res.assumptions = ['boundary classes are capped where the extracted list model gets slow: suite names 4097 bytes (16385 in the '
+                       'thorough tier; 65536 would take minutes), logs 16385 bytes (64 KiB + 1 thorough; a block above the 1 MiB '
+                       'scratch of regress_log_parse is out of reach), 256 suites per invocation, 1000 suites for a pass rate '
+                       '(thorough; n/65536 only in the leaf harness), 65 x 65 runs per page (thorough); names of path components '
+                       'stop at NAME_MAX',
+                       'up to 70 invocations and 80 suites per case in the correspondence (the theorems have no bound); '
                        'names from [A-Za-z0-9/._-] except in the special and markup streams; start times distinct unless the '
                        'stream says otherwise']
     impl = ctx.build_impl()
     asan = ctx.build_impl('-fsanitize=address -g', cc='clang', ldflags='-fsanitize=address')
     leaf_check(ctx, res, impl)
-    streams_asan = ('dup',) if ctx.tier != 'thorough' else ('plain', 'tie', 'dup', 'error', 'wide', 'overlap', 'biglog', None)
+    # the boundary classes also run under the sanitizer build: a buffer that is one byte short is silent without it
+    streams_asan = ('dup', 'bnd') if ctx.tier != 'thorough' else ('plain', 'tie', 'dup', 'error', 'wide', 'overlap', 'biglog', 'bnd', None)
     chunk = 500
     for i in range(0, len(cases), chunk):
-        evaluate(ctx, cases[i:i + chunk], res, impl, asan, streams_asan)
+        evaluate(ctx, cases[i:i + chunk], res, impl, asan, streams_asan, asan_all_bnd=thorough)
     res.traces_validated = res.evaluations
     # a lane that produced no verdict is a broken check, not a pass
     d = res.distribution
@@ -1011,6 +1603,8 @@ def run(ctx, n=None, streams=None):
             ('readers-cross-checked', 'the strict reader was never cross-checked'), ('self-lane-rows', 'the self lane judged no row'),
             ('asan-runs', 'nothing ran under the sanitizer build'), ('rerun-lane', 'the rerun lane never ran')]
     if not streams:
+        if not any(k.startswith('class: ') for k in d):
+            res.tie_errors.append('vacuous lane: no boundary class ran (corpus/C14/b14_*.json)')
         need += [('invocations=64+', 'no case with 64 or more invocations'), ('big_log', 'no log above 8 KiB'),
                  ('overlap', 'no case with invocations of different arches interleaved in time'),
                  ('equal_times', 'no case with equal start times'), ('dup_suite', 'no case with a suite recorded twice')]
@@ -1036,7 +1630,7 @@ def replay(ctx, rep):
     res = common.Result()
     impl = ctx.build_impl()
     asan = ctx.build_impl('-fsanitize=address -g', cc='clang', ldflags='-fsanitize=address')
-    evaluate(ctx, [case], res, impl, asan, (case.get('stream'),), rerun_every=1)
+    evaluate(ctx, [case], res, impl, asan, (case.get('stream'),), rerun_every=1, asan_all_bnd=True)
     print('features:', features(case), 'outside:', markup_names(case))
     print('disagreements:', json.dumps(res.disagreements, indent=1)[:3000])
     print('tie errors:', res.tie_errors)
